@@ -230,6 +230,13 @@ func judgeC19(hi *Hist) []*Violation {
 				}
 				st := pending[0]
 				pending = nil
+				note("c19_calls_compared")
+				if st.Err != "" && st.Err != "EOF" {
+					note("c19_stream_errors")
+				}
+				if st.N == 0 && st.Err == "" {
+					note("c19_zero_reads")
+				}
 				if st.N != rec.N || st.Err != rec.Err {
 					add("result", "proxy %s returned (%d, %q) but the wrapped value returned (%d, %q)", rec.Call, rec.N, rec.Err, st.N, st.Err)
 				}
@@ -255,7 +262,9 @@ func judgeC19(hi *Hist) []*Violation {
 						lastErr = st.Err
 					}
 				}
+				note("c19_copies_compared")
 				if sp.HasFast {
+					note("c19_fast_path")
 					fast := "WriteTo"
 					if sp.Writer {
 						fast = "ReadFrom"
@@ -388,6 +397,7 @@ func checkSamples(hi *Hist, op *OpRec, calls []h.StreamRec, before RefBar, bar h
 			}
 			s := samples[delivered]
 			delivered++
+			note("c19_samples_compared")
 			if s.N != c.N {
 				add("sample-bytes", "moving-average decorator %d/%d: sample %d carries %d bytes, the call transferred %d", k.side, k.ord, delivered, s.N, c.N)
 				return
